@@ -396,6 +396,50 @@ func checkC08(w *World, r *Report) {
 			}
 			return true
 		})
+		// switch form: switch c { case '=', '!': … next == '=' …; case '&', '|': … next == c … }
+		ast.Inspect(fd.Body, func(n ast.Node) bool {
+			cc, ok := n.(*ast.CaseClause)
+			if !ok || len(cc.List) == 0 {
+				return true
+			}
+			sw, ok := w.parents[w.parents[cc]].(*ast.SwitchStmt)
+			if !ok || sw.Tag == nil {
+				return true
+			}
+			var firsts []byte
+			for _, e := range cc.List {
+				bl, isLit := ast.Unparen(e).(*ast.BasicLit)
+				tv := w.Info.Types[e]
+				if !isLit || bl.Kind != token.CHAR || tv.Value == nil {
+					return true
+				}
+				c, _ := constant.Int64Val(tv.Value)
+				if c < 0 || c > 127 {
+					return true
+				}
+				firsts = append(firsts, byte(c))
+			}
+			tagStr := types.ExprString(sw.Tag)
+			for _, st := range cc.Body {
+				ast.Inspect(st, func(m ast.Node) bool {
+					b, ok := m.(*ast.BinaryExpr)
+					if !ok || b.Op != token.EQL {
+						return true
+					}
+					if c2, ok := charCompare(w, b); ok {
+						for _, f := range firsts {
+							twoChar[string([]byte{f, c2})] = true
+						}
+					} else if types.ExprString(b.Y) == tagStr || types.ExprString(b.X) == tagStr {
+						for _, f := range firsts {
+							twoChar[string([]byte{f, f})] = true
+						}
+					}
+					return true
+				})
+			}
+			return true
+		})
 	}
 	for _, op := range ops {
 		if isWordOp(op) {
